@@ -43,8 +43,10 @@ ASSUMPTIONS = [
     'back grouped by type in input order; element symbols are stored only when every type has one',
     'files with carried atom ids come back in id order (compared per id)',
     'integer dtypes are one kind (signed/unsigned not distinguished: Atoms stores atype as uint64)',
-    'peri and smd atom styles, and density-carrying styles under electron units, are refused by the writer with KeyError '
-    '(its unit table has no such entry): counted as refusals, not generated otherwise',
+    'density-carrying atom styles (ellipsoid, line, tri, sphere, peri) under electron units are refused by the writer with '
+    'KeyError (LAMMPS defines no density unit for that style, the unit table has no entry): counted as refusals',
+    'dump files and POSCAR allow no comments or blank lines between records, so only the atom-line order (dump), the free '
+    'comment line and trailing blank lines (POSCAR) are varied there',
     'the magnitude of one file unit (for input scaling and the precision bound only) is taken from atomman\'s unit table where '
     'it has the entry, cross-checked against the oracle table (disagreements are counted, they belong to C07/C09)',
 ]
